@@ -483,9 +483,15 @@ fn gen_random(out: &mut Out) {
                 st.exhaustive_perm_problems += 1;
                 // every bound for every permutation where that is cheap, else compute() + one bound
                 let all_bounds = n <= 3 || (!out.quick() && n <= 4);
-                for perm in permutations(n) {
+                for (pi, perm) in permutations(n).iter().enumerate() {
+                    if out.quick() && n >= 5 {
+                        // 120 / 720 permutations: alternate compute() and one bound
+                        let b = if pi % 2 == 0 { -1 } else { *rng.pick(&[1i64, 2, 3]) };
+                        run(out, &p, "prio", perm, b, &mut st);
+                        continue;
+                    }
                     for b in bounds_for(&mut rng, all_bounds) {
-                        run(out, &p, "prio", &perm, b, &mut st);
+                        run(out, &p, "prio", perm, b, &mut st);
                     }
                 }
             } else {
@@ -541,14 +547,14 @@ fn gen_mc(out: &mut Out) {
         idx.truncate(limit);
         idx.sort();
     }
-    let mut st = Stats::default();
+    let mut problems = 0u64;
     for i in &idx {
         let c: Value = serde_json::from_str(lines[*i]).expect("config json");
         let n = c["n"].as_u64().unwrap() as usize;
         let mut base = c.clone();
         base["ev"] = json!("reset");
         base["prog"] = json!([]);
-        st.problems += 1;
+        problems += 1;
         let mut variants: Vec<(String, Vec<usize>)> = vec![("new".into(), vec![])];
         for perm in permutations(n) {
             variants.push(("prio".into(), perm));
@@ -559,12 +565,11 @@ fn gen_mc(out: &mut Out) {
             r["prio"] = json!(prio);
             let evs = exec(&r);
             let nt = nontrivial(&evs);
-            st.runs += 1;
             out.emit(evs, nt);
         }
     }
     out.extra.insert("mc_configs_total".into(), json!(lines.len()));
-    out.extra.insert("mc_configs_replayed".into(), json!(idx.len()));
+    out.extra.insert("mc_configs_replayed".into(), json!(problems));
 }
 
 pub fn gen(out: &mut Out, sub: &str) {
